@@ -3,7 +3,9 @@ package verifsim
 import (
 	"context"
 	"encoding/json"
+	"errors"
 	"fmt"
+	"io"
 	"strings"
 	"time"
 
@@ -34,7 +36,7 @@ func init() {
 			{Name: "audit-pipe-vs-direct", Fn: scnC07AuditPipe, Weight: 1},
 		},
 		Rule: "every one of the 22 generated message shapes (20 forms; the accepted public-key form in its three branches) with generated fields is processed twice by fresh processors: directly as (pid, message), and as '<pid><padding><message>\\n' " +
-			"written in taped chunks to a simulated FIFO read by the real syslog ingester (plus once at callback level); events (all fields but the timestamp) and forwarded logins must agree; " +
+			"written in taped chunks to a simulated FIFO read by the real syslog ingester (plus once at callback level); events (all fields but the timestamp), forwarded logins and returned errors must agree, also when the event write fails (a tenth of the runs); " +
 			"audit record groups are parsed and coalesced with and without the trailing newline; the records of generated sessions are written in taped chunks to a simulated FIFO read by the real audit-log ingester " +
 			"(read-buffer size, hand-over buffer and consumer pace taped; the consumer keeps what it was handed, as the reassembler does) and every record handed over must, when all have arrived, still parse to the message its line parses to directly; the form is enumerated within each group of runs; " +
 			"non-trivial = the direct path produced at least one event; distinct = distinct (message, padding, chunking, schedule hash)",
@@ -93,6 +95,18 @@ func scnC07Sshd(rc *RunCtx) {
 	ctx, cancel := context.WithCancel(context.Background())
 	rc.Cleanup(cancel)
 	seed := uint64(rc.Index)*7919 + 17
+	// in a tenth of the runs the event cannot be written (same fault on every path): the
+	// outcome, including the error handed back, must still be the same
+	writeFails := t.Choose(10, "write.fails") == 9
+	if writeFails {
+		rc.Sim.Count("fault.write_error_all_paths")
+	}
+	failAt := func(r *Recorder) *Recorder {
+		if writeFails {
+			r.FailAt, r.FailAll = 1, true
+		}
+		return r
+	}
 
 	// the correlator side of the logins channel is busy for a taped simulated time in half of
 	// the runs (same for both paths): unbuffered channel, consumer task starts receiving late
@@ -117,7 +131,7 @@ func scnC07Sshd(rc *RunCtx) {
 
 	// (a) direct
 	uuid.SetRand(simrt.NewRandReader(seed))
-	recA := &Recorder{Sim: rc.Sim, NoPoint: true}
+	recA := failAt(&Recorder{Sim: rc.Sim, NoPoint: true})
 	a := &sshdRun{}
 	if busyMs == 0 {
 		chA := make(chan common.RemoteUserLogin, 4)
@@ -148,7 +162,7 @@ func scnC07Sshd(rc *RunCtx) {
 
 	// (b') callback level
 	uuid.SetRand(simrt.NewRandReader(seed))
-	recC := &Recorder{Sim: rc.Sim, NoPoint: true}
+	recC := failAt(&Recorder{Sim: rc.Sim, NoPoint: true})
 	chC := make(chan common.RemoteUserLogin, 4)
 	sliC := syslog.NewSyslogIngester("/unused", newSshdProc(ctx, recC, chC), namedpipe.NewNamedPipeIngester(nopLogger, health.NewHealth()))
 	c := &sshdRun{}
@@ -159,7 +173,7 @@ func scnC07Sshd(rc *RunCtx) {
 
 	// (b) through the simulated FIFO and the real ingester
 	uuid.SetRand(simrt.NewRandReader(seed))
-	recB := &Recorder{Sim: rc.Sim}
+	recB := failAt(&Recorder{Sim: rc.Sim})
 	chB := make(chan common.RemoteUserLogin, 4)
 	b := &sshdRun{}
 	if busyMs > 0 {
@@ -204,9 +218,14 @@ func scnC07Sshd(rc *RunCtx) {
 	if busyMs == 0 {
 		b.logins = drainLogins(chB)
 	}
+	// what the ingester returns for this record: the end of the stream is its normal end, any
+	// other error is the record's
+	if res.v && res.err != nil && !errors.Is(res.err, io.EOF) {
+		b.errs = append(b.errs, res.err.Error())
+	}
 	rc.CaseKey(form, m.Msg, pad, busyMs)
-	rc.R.NonTrivial = len(a.events) > 0
-	rc.R.Sample = map[string]any{"form": form, "pid": m.PID, "message": m.Msg, "padding": pad + 1, "correlator_busy_ms": busyMs, "direct_events": len(a.events), "pipe_events": len(b.events), "direct_logins": len(a.logins), "pipe_logins": len(b.logins)}
+	rc.R.NonTrivial = len(a.events) > 0 || writeFails
+	rc.R.Sample = map[string]any{"form": form, "pid": m.PID, "message": m.Msg, "padding": pad + 1, "correlator_busy_ms": busyMs, "write_fails": writeFails, "direct_events": len(a.events), "pipe_events": len(b.events), "direct_logins": len(a.logins), "pipe_logins": len(b.logins)}
 	if !ok {
 		rc.Abort("syslog ingester did not finish: %v", rc.Sim.Live())
 		return
@@ -348,6 +367,7 @@ func scnC07AuditPipe(rc *RunCtx) {
 	})
 	pipelinePolicy(rc)
 	ok := false
+	quiet := 0
 	for i := 0; i < 400; i++ {
 		why := rc.Sim.RunUntil(func() bool { return res.v && cdone.v }, 200000)
 		if why == "stop" {
@@ -355,6 +375,14 @@ func scnC07AuditPipe(rc *RunCtx) {
 			break
 		} else if why == "budget" {
 			break
+		}
+		// the ingester has returned (end of stream) and the hand-over buffer is drained, but
+		// the consumer still waits: records are missing, which is decided below
+		if res.v && len(ch) == 0 {
+			if quiet++; quiet >= 5 {
+				ok = true
+				break
+			}
 		}
 		time.Sleep(100 * time.Millisecond)
 	}
